@@ -778,6 +778,8 @@ def run(ctx, replay=None):
         specs = huge[:ctx.n(8, 60)] + odd_logfinrange_specs(rng)[:ctx.n(5, 7)] + specs   # first: reported first
         spaces = None
 
+    if replay is None or replay.get("only") == "float_grid":
+        float_grid_cases(ctx, rng, cs, make_hyperparameter_ranges, [replay["spec"]] if replay else None)
     only = replay.get("only") if replay else None
     for spec in specs:
         single_domain_cases(ctx, C, spec, rng, cs, make_hyperparameter_ranges, only,
@@ -803,6 +805,61 @@ def run(ctx, replay=None):
                     ctx.h("boundary_accepted", C.meta[i].get("op"))
         ctx.h("coq_cases", "total", len(C.terms))
         ctx.h("coq_cases", "with_binary64_slack_gt_1e-9", sum(1 for m in C.meta if m.get("slack")))
+
+
+def float_grid_cases(ctx, rng, cs, make_hpr, specs=None):
+    """Float-valued finite ranges (cast_int=False) with random two-decimal parameters; Python side only.
+    The grid is computed twice in the library (FiniteRange.values defines membership, the encoder's
+    _map_from_int decodes): top and bottom grid points must decode to EXACT members of dom.values (no
+    tolerance) and the top / bottom member must round-trip exactly."""
+    if specs is None:
+        specs = []
+        for _ in range(ctx.n(160, 1500)):
+            if rng.random() < 0.5:
+                lo = round(rng.uniform(-5, 5), 2)
+                hi = round(lo + rng.uniform(0.05, 20), 2)
+                kind = "finrange"
+            else:
+                lo = round(rng.uniform(0.01, 10), 2) or 0.01
+                hi = round(lo * rng.uniform(1.1, 200), 2)
+                kind = "logfinrange"
+            if hi > lo:
+                specs.append(dict(kind=kind, lower=lo, upper=hi, size=rng.choice([2, 3, 4, 5, 6, 7, 9, 10, 16]), cast_int=False))
+        specs += [dict(kind="finrange", lower=0.1, upper=1.0, size=4, cast_int=False),
+                  dict(kind="logfinrange", lower=1.0, upper=16.0, size=5, cast_int=False)]
+    for spec in specs:
+        okb, dom = call(lambda: build(spec))
+        okh, hpr = call(lambda: make_hpr({"x": dom})) if okb else (False, None)
+        if not (okb and okh):
+            continue
+        ctx.count(("float_grid", spec), nontrivial=True)
+        ctx.h("op", "float_grid")
+        n_ = spec["size"]
+        values = list(dom.values)
+        ctx.h("float_grid_top", "top_is_upper" if values[-1] == spec["upper"] else "top_misses_upper_by_roundoff")
+        case = dict(spec=spec, only="float_grid")
+        sig = dict(domain="FiniteRange", constructor=spec["kind"], cast_int=False, grid="float")
+        vs_ = [1.0, float(np.nextafter(1.0, 0.0)), 1.0 - 1e-12, (n_ - 0.5) / n_, 0.0, float(np.nextafter(0.0, 1.0)), 0.5 / n_]
+        bad = None
+        for v_ in vs_:
+            okd, x = call(lambda: hpr.from_ndarray(np.array([v_]))["x"])
+            if not okd or not is_member(dom, x):
+                bad = ("from_ndarray([%r]) = %r is not one of the values %r (exact comparison)" % (v_, x, values),
+                       dict(sig, op="from_ndarray", defect="decoded_not_member", grid_end="top" if v_ > 0.5 else "bottom"))
+                break
+        if bad is None:
+            for name_, m_ in (("top", values[-1]), ("bottom", values[0])):
+                okr, back = call(lambda: hpr.from_ndarray(hpr.to_ndarray({"x": m_}))["x"])
+                okc, cst = call(lambda: dom.cast(m_))
+                if not okr or not same_value(back, m_, False):
+                    bad = ("round trip of the %s member %r gives %r (values %r)" % (name_, m_, back, values),
+                           dict(sig, op="round_trip", defect="round_trip_differs", grid_end=name_))
+                    break
+                if not okc or not same_value(cst, m_, False):
+                    bad = ("cast of the %s member %r gives %r" % (name_, m_, cst), dict(sig, op="cast", defect="cast_of_member_differs", grid_end=name_))
+                    break
+        if bad is not None:
+            ctx.violation("property", "%r: %s" % (dom, bad[0]), case=case, signature=bad[1])
 
 
 def single_domain_cases(ctx, C, spec, rng, cs, make_hpr, only=None, forced_active=None):
